@@ -50,6 +50,7 @@ type basicTaskBase struct {
 	taskCmd                 *exec.Cmd
 	transitioner            transitioner.Transitioner
 	pendingFinalTaskStateCh chan mesos.TaskState
+	runningTimer            *time.Timer
 }
 
 func (t *basicTaskBase) startBasicTask() (err error) {
@@ -286,7 +287,7 @@ func (t *basicTaskBase) doLaunch(transitionFunc transitioner.DoTransitionFunc) e
 		WithField("level", infologger.IL_Devel).
 		Debug("basic task staged")
 
-	time.AfterFunc(200*time.Millisecond, func() { t.sendStatus(t.knownEnvironmentId, mesos.TASK_RUNNING, "") })
+	t.runningTimer = time.AfterFunc(200*time.Millisecond, func() { t.sendStatus(t.knownEnvironmentId, mesos.TASK_RUNNING, "") })
 
 	return nil
 }
@@ -310,6 +311,10 @@ func (t *basicTaskBase) Transition(cmd *executorcmd.ExecutorCommand_Transition) 
 }
 
 func (t *basicTaskBase) Kill() error {
+	if t.runningTimer != nil {
+		// no TASK_RUNNING after the final update
+		t.runningTimer.Stop()
+	}
 	if t.taskCmd != nil {
 		// a basic task which is still running goes down with its whole process group (noop for hooks)
 		_ = t.ensureBasicTaskKilled()
